@@ -127,7 +127,7 @@ def gen_plan(rng, tier, i):
     if rng.random() < 0.15:
         kn["fault"] = {"kind": rng.choice(["bsp_missing", "bsp_empty", "bsp_truncated", "pck_missing", "pck_damaged"]), "at": rng.random()}
     ops = []
-    for _ in range(rng.randint(5, 12)):
+    for _ in range(rng.randint(5, 12) if tier != "thorough" else rng.randint(8, 24)):
         k = rng.choice(["convert"] * 6 + ["get_orbit", "get_orbit", "mutate_again", "create", "create", "dynamic", "register", "flip", "restart", "analytic", "analytic", "reverse", "kepler_probe", "kepler_probe", "orbit_as_frame", "analytic_frame_same_name"])
         op = {"op": k}
         if k == "convert":
